@@ -15,7 +15,7 @@ Expressions are hashable nested tuples:
   ('ovf', ('bin', op, a, b))        overflow flag of a checked operation
   ('opaque', text)
 """
-from .mir import fold_binop, scalar_value, INT_RANGES, callee_of
+from .mir import alias_of, fold_binop, scalar_value, INT_RANGES, callee_of
 
 # callees whose result is a function of the arguments only (value-numbered without location)
 PURE = {
@@ -187,9 +187,16 @@ class Exprs:
         proj = p["proj"]
         l = p["local"]
         if proj and proj[0]["k"] == "deref" and self.b.local_ty(l).startswith("&mut "):
-            e = ("mem", l, self._version(("mem", l), loc))
-            # keep which pointer it is when the pointer itself is a plain parameter
-            proj = proj[1:]
+            # a pointer derived from another one (`let p = &mut (*self).flag`) names a place behind the
+            # pointer it was derived from: canonicalise, so that `*p` and `self.flag` are one expression
+            r, mode, pr0 = alias_of(self.b, l)
+            if mode == "ptrref" and r != l and self.b.local_ty(r).startswith("&mut "):
+                e = ("mem", r, self._version(("mem", r), loc))
+                proj = list(pr0) + list(proj[1:])
+            else:
+                e = ("mem", l, self._version(("mem", l), loc))
+                # keep which pointer it is when the pointer itself is a plain parameter
+                proj = proj[1:]
         else:
             e = self.local(l, loc)
         for el in proj:
@@ -269,7 +276,8 @@ class Exprs:
             return mk_deref(args[0])
         if callee.endswith("as std::cmp::PartialEq>::eq") and len(args) == 2:
             return mk_bin("Eq", mk_deref(args[0]), mk_deref(args[1]))
-        if callee.endswith("as std::cmp::PartialEq>::ne") and len(args) == 2:
+        if (callee.endswith("as std::cmp::PartialEq>::ne") or callee == "std::cmp::PartialEq::ne") and len(args) == 2:
+            # a derived PartialEq does not override `ne`: `a != b` resolves to the trait's default method
             return mk_bin("Ne", mk_deref(args[0]), mk_deref(args[1]))
         if len(args) == 2 and (callee.endswith("PartialEq<&B> for &A>::eq") or callee.endswith("PartialEq for str>::eq")):
             return mk_bin("Eq", strip_refs(args[0]), strip_refs(args[1]))
